@@ -122,10 +122,12 @@ def bitflip(case, ctx):
 
 
 FAULTS = ["drop", "dup", "swap", "trunc-adjust", "trunc-raw", "inject-earlier", "reflect", "extend", "inject-crafted", "inject-crafted"]
-# crafted records put in front of a handshake record: content types handshake / application_data / heartbeat / unknown / change_cipher_spec
-# (except the one record TLS 1.3 tells receivers to drop: CCS with payload 01); alerts are left out (warning alerts may legitimately be ignored),
+# crafted records put in front of a handshake record: content types handshake / application_data / heartbeat / unknown / change_cipher_spec.
+# The property leaves no room for RFC 8446's middlebox-compatibility rule (a TLS 1.3 receiver may drop a stray CCS record 01): this library
+# does not implement it, and an endpoint that completes although a record was injected contradicts the statement as given.  Alerts are left
+# out (warning alerts may legitimately be ignored),
 # empty or short payloads, the connection's own version bytes or another known version
-CRAFT_TYPES = [22, 23, 23, 24, 0, 255, 20, 20]
+CRAFT_TYPES = [22, 23, 23, 24, 0, 255, 20, 20, 20]
 CRAFT_VERS = ["", "", "0303", "0301", "0101", "0304"]
 rec_case = st.fixed_dictionaries(dict(cfg, rec=st.integers(0, 63), fault=st.sampled_from(FAULTS), k=st.integers(1, 40), other=st.integers(0, 63),
                                       ctype=st.sampled_from(CRAFT_TYPES), cver=st.sampled_from(CRAFT_VERS), clen=st.sampled_from([0, 0, 0, 1, 2, 4, 16]),
@@ -181,10 +183,8 @@ def recfault(case, ctx):
             if fault == "inject-crafted":
                 ver = bytes.fromhex(case.get("cver") or "") or rec.raw[1:3]
                 pl = bytes([case.get("cfill", 0)]) * case.get("clen", 0)
-                if case.get("ctype") == 20 and proto == "tls13" and pl == b"\x01":
-                    # RFC 8446 section 5: a TLS 1.3 receiver MUST drop a stray change_cipher_spec record consisting of the single byte 01
-                    # (middlebox compatibility); dropping it is not a violation, so this one record is not injected
-                    return [rec.raw]
+                if case.get("ctype") == 20:      # mostly the one well-formed ChangeCipherSpec body
+                    pl = [b"\x01", b"\x01", b"\x01", b"\x01", b"", b"\x00", b"\x01\x01"][(case.get("clen", 0) + case.get("cfill", 0)) % 7]
                 hit.append(1)
                 return [bytes([case.get("ctype", 23)]) + ver + len(pl).to_bytes(2, "big") + pl, rec.raw]
             if fault == "reflect":
